@@ -21,7 +21,7 @@ def sh(cmd, cwd=None, timeout=900, env=ENV):
 def one(args):
     slot, d, benign, workers = args
     d = os.path.realpath(d)
-    base = '/tmp/pc/s%d' % slot
+    base = '/tmp/pc/%ss%d' % (os.environ.get('PC_NS', ''), slot)
     sh('git -C /repo worktree remove --force %s/repo; rm -rf %s; git -C /repo worktree prune' % (base, base))
     os.makedirs(base)
     res = {'dir': d}
@@ -49,6 +49,7 @@ def one(args):
         if benign:
             pk = set(re.findall(r'^\+\+\+ b/([a-z]+)/', open(d + '/patch.diff').read(), re.M))
             ids = sorted(set(' '.join(PK.get(p, '') for p in pk).split()))
+            if os.environ.get('PC_ONLY'): ids = [i for i in ids if i in os.environ['PC_ONLY'].split()]   # regression of the checks that changed
         v = base + '/verif'
         os.makedirs(v)
         sh('cd /verif && tar cf - go.mod go.sum run mc oracle libdefaults firstuse checks overlay known_findings.json tools/ovgen tools/build_check.sh | tar xf - -C %s' % v)
